@@ -562,15 +562,75 @@ fn replay_flags(case: &Value, rep: &mut Report, rng: &mut Rng) {
     let all: Vec<bool> = kinds.iter().map(|k| k != "pool").collect();
     let some: Vec<bool> = kinds.iter().map(|k| k != "pool" && rng.below(2) == 0).collect();
     for drop in [all, some] {
-        replay_flags_variant(case, rep, rng, &kinds, &drop);
+        let arch = flags_arch(&kinds, &drop);
+        replay_flags_variant(case, rep, rng, &kinds, &drop, arch);
+    }
+    // the same layout with ReLU layers (exact zeros in inference mode too) and a skip connection whose target follows a
+    // layer with dropout: a zero is not evidence of a dropped unit
+    if kinds.len() >= 2 && kinds.iter().all(|k| k == "dense") {
+        let drop: Vec<bool> = kinds.iter().map(|_| true).collect();
+        let mut arch = flags_arch(&kinds, &drop);
+        for l in arch["layers"].as_array_mut().unwrap().iter_mut() {
+            if l["act"] == "tanh" {
+                l["act"] = json!("relu");
+            }
+        }
+        arch["connect"] = json!([[0, kinds.len()]]);
+        arch["name"] = json!("relu-skip");
+        replay_flags_variant(case, rep, rng, &kinds, &drop, arch);
+    }
+    if kinds.len() == 1 && kinds[0] == "dense" {
+        replay_flags_append(case, rep, rng);
     }
 }
 
-fn replay_flags_variant(case: &Value, rep: &mut Report, rng: &mut Rng, kinds: &[String], drop: &[bool]) {
+/// Train, append a new head WITH dropout, train again: when the second call returns every layer -- also the one that did
+/// not exist during the first call -- is in inference mode, and the network predicts like its dropout-free twin.
+fn replay_flags_append(case: &Value, rep: &mut Report, rng: &mut Rng) {
+    let p = &case["p"];
+    let (n, b, e) = (usize_of(p, "n"), usize_of(p, "b"), usize_of(p, "e"));
+    let id = format!("training:flags:append:b{}e{}", b, e);
+    let body = json!({"input": [8], "out": 8, "ints": false,
+                      "layers": [{"kind": "dense", "out": 8, "act": "tanh", "bias": true, "dropout": 0.5},
+                                 {"kind": "dense", "out": 8, "act": "tanh", "bias": true}],
+                      "objective": {"kind": "mse"}, "optimizer": {"kind": "sgd", "lr": 0.05}});
+    let head = json!({"kind": "dense", "out": 4, "act": "tanh", "bias": true, "dropout": 0.5});
+    let mut full = body.clone();
+    full["layers"].as_array_mut().unwrap().push(head.clone());
+    full["out"] = json!(4);
+    rep.checks += 1;
+    let res = guarded(|| {
+        let mut net = nets::build(&body);
+        nets::randomize_floats(&mut net, &body, rng, 0.8);
+        let d1 = arch_dataset(&body, n.max(1), rng);
+        net.learn(&refs(&d1.inputs), &refs(&d1.targets), None, b, e.max(1) as i32, None);
+        nets::add_layer(&mut net, &head);
+        net.set_optimizer(nets::optimizer_from(&full["optimizer"]));
+        let d2 = arch_dataset(&full, n.max(1), rng);
+        net.learn(&refs(&d2.inputs), &refs(&d2.targets), None, b, e.max(1) as i32, None);
+        let mut twin = nets::build(&without_dropout(&full));
+        nets::copy_params(&net, &mut twin);
+        let pa: Vec<Vec<f32>> = d2.inputs.iter().map(|x| flat(&net.predict(x))).collect();
+        let pt: Vec<Vec<f32>> = d2.inputs.iter().map(|x| flat(&twin.predict(x))).collect();
+        (verif::flags(&net.layers), pa, pt)
+    });
+    match res {
+        Err(msg) => rep.mismatch("C09", "learn_panicked", &id, json!({"panic": msg, "phase": "append"}), case),
+        Ok((flags, pa, pt)) => {
+            if flags.iter().any(|f| *f) {
+                rep.mismatch("C09", "training_flag_left_on_after_learn", &id, json!({"flags": flags, "phase": "layer appended between two learn calls"}), case);
+            }
+            if pa.iter().zip(pt.iter()).any(|(x, y)| bits_of(x) != bits_of(y)) {
+                rep.mismatch("C09", "predict_after_learn_differs_from_dropout_free_network", &id, json!({"phase": "layer appended between two learn calls"}), case);
+            }
+        }
+    }
+}
+
+fn replay_flags_variant(case: &Value, rep: &mut Report, rng: &mut Rng, kinds: &[String], drop: &[bool], arch: Value) {
     let p = &case["p"];
     let (n, b, e, hasval, tol) = (usize_of(p, "n"), usize_of(p, "b"), usize_of(p, "e"), bool_of(p, "hasval"), usize_of(p, "tol"));
-    let id = format!("training:flags:{:?}:{:?}:b{}e{}val{}", kinds, drop, b, e, hasval);
-    let arch = flags_arch(kinds, drop);
+    let id = format!("training:flags:{:?}:{:?}:b{}e{}val{}{}", kinds, drop, b, e, hasval, arch.get("name").and_then(|v| v.as_str()).unwrap_or(""));
     let plain = without_dropout(&arch);
     let data = arch_dataset(&arch, n, rng);
     // the model evaluates validation data in chunks of an abstract size; the implementation's chunk holds 64 samples:
@@ -1298,6 +1358,29 @@ pub fn replay_validate(case: &Value, rep: &mut Report, rng: &mut Rng) {
         }
     }
 
+    // "All tolerances": a tolerance far below any representable difference counts exact hits only, one far above any
+    // difference counts everything (the products tol * tol would underflow / overflow; |t - p| < tol does not)
+    if !softmax {
+        for (tiny, t_ext) in [(true, 1.0e-30f32), (false, 1.0e30f32)] {
+            let mut hits = 0.0f32;
+            for (x, y) in xs.iter().zip(ys.iter()) {
+                let (p, t) = (flat(x), flat(y));
+                let within = p.iter().zip(t.iter()).filter(|(a, b)| !tiny || a == b).count();
+                hits += within as f32 / len as f32;
+            }
+            let want = hits / n as f32;
+            rep.checks += 1;
+            match guarded(|| net.validate(&xr, &yr, t_ext)) {
+                Err(msg) => rep.mismatch("C12", "validate_panicked_at_an_extreme_tolerance", &id, json!({"panic": msg, "tolerance": format!("{:e}", t_ext)}), case),
+                Ok((_, acc)) => {
+                    if acc.to_bits() != want.to_bits() {
+                        rep.mismatch("C12", "accuracy_at_an_extreme_tolerance", &id, json!({"tolerance": format!("{:e}", t_ext), "expected": want, "observed": acc}), case);
+                    }
+                }
+            }
+        }
+    }
+
     // "The arithmetic mean over the samples": a sample whose loss does not fit single precision (finite prediction, finite
     // target, squared error beyond 3.4e38) is a sample like any other -- the mean loss is then +infinity, and the sample
     // still counts (as a miss) in the accuracy.  Sample k's prediction is replaced by huge values.
@@ -1347,6 +1430,16 @@ pub fn replay_validate(case: &Value, rep: &mut Report, rng: &mut Rng) {
                    {"kind": "dense", "out": 2, "act": "linear", "bias": true}],
         "loopback": [{"outof": 0, "into": 0, "iterations": 2, "inskips": true}], "accumulation": {"skip": "add", "loop": "mean"},
         "objective": {"kind": "mae"}}));
+    // the soft-max OUTPUT layer closes a loop connection: forward() stores accumulated pre-activations and accumulated
+    // activations separately, and only the activations are what predict() returns
+    archs.push(json!({"name": "mlp-softmax-output-loop", "ints": false, "input": [3], "out": 3, "onehot": true,
+        "layers": [{"kind": "dense", "out": 3, "act": "tanh", "bias": true}, {"kind": "dense", "out": 3, "act": "softmax", "bias": true}],
+        "loopback": [{"outof": 1, "into": 1, "iterations": 2, "inskips": false}], "accumulation": {"skip": "add", "loop": "mean"},
+        "objective": {"kind": "ce"}}));
+    archs.push(json!({"name": "softmax-only-loop-add", "ints": false, "input": [3], "out": 3, "onehot": true,
+        "layers": [{"kind": "dense", "out": 3, "act": "softmax", "bias": false}],
+        "loopback": [{"outof": 0, "into": 0, "iterations": 2, "inskips": false}], "accumulation": {"skip": "add", "loop": "add"},
+        "objective": {"kind": "ce"}}));
     // every generic network under every objective family in turn (the network's objective decides what `validate` reports)
     const OBJECTIVES: [&str; 7] = ["ae", "mae", "mse", "rmse", "ce", "bce", "kl"];
     // three of the generic networks per case, rotating through all of them over the cases
